@@ -210,6 +210,9 @@ def pairingAnswer (ws : List String) : Option String :=
   | ["bls-ate", pq] => do
     let (p, q) ← parsePointPair Gen.blsP pq
     some (fmt12 (Bls.pairing p q))
+  | ["bn-ate", pq] => do
+    let (p, q) ← parsePointPair Gen.bnP pq
+    some (fmt12 (BnAte.pairing p q))
   | ["gtgen", "bls"] => some (fmt12 Bls.gtGenerator)
   | ["dual", "bls", ls, rs, sigma, gamma] => do
     dualModel ls rs (← parseNat? sigma) (← parseNat? gamma)
